@@ -255,8 +255,8 @@ Record same_study (g g' : gstate) : Prop := {
 Lemma same_regs_refl : forall th, same_regs th th. Proof. constructor; reflexivity. Qed.
 Lemma same_study_refl : forall g, same_study g g. Proof. constructor; reflexivity. Qed.
 Lemma same_regs_pc : forall th o, same_regs th (th_pc o th). Proof. constructor; reflexivity. Qed.
-Lemma same_regs_to_script : forall th, same_regs th (to_script th).
-Proof. intros. unfold to_script. destruct (next_call _ _) as [[u r]|]; constructor; reflexivity. Qed.
+Lemma same_regs_to_script : forall au ra th, same_regs th (to_script au ra th).
+Proof. intros. unfold to_script. destruct (next_call _ _ _) as [[u r]|]; constructor; reflexivity. Qed.
 Lemma same_regs_trans : forall a b d, same_regs a b -> same_regs b d -> same_regs a d.
 Proof. intros a b d [] []. constructor; congruence. Qed.
 
@@ -1153,8 +1153,8 @@ Proof.
   - destruct (entry_ann p (r_ret th')) as [x [A B]]. exists x. split; auto. eapply sat_leq; eauto. eapply sat_frame; eauto. apply same_study_refl.
 Qed.
 
-Lemma to_script_pc : forall th, pc (to_script th) = None \/ exists p, pc (to_script th) = Some (p, 0).
-Proof. intros. unfold to_script. destruct (next_call _ _) as [[u r]|]; simpl; eauto. Qed.
+Lemma to_script_pc : forall au ra th, pc (to_script au ra th) = None \/ exists p, pc (to_script au ra th) = Some (p, 0).
+Proof. intros. unfold to_script. destruct (next_call _ _ _) as [[u r]|]; simpl; eauto. Qed.
 
 Lemma GI_frame2 : forall g g' ts t th th', same_gi g g' -> nth_error ts t = Some th -> gh th' = gh th ->
   (g_reg (gh th) = true -> holds_k th' KReg) -> GI g ts -> GI g' (set_th ts t th').
@@ -1381,7 +1381,7 @@ Proof.
     subst g' ts'. rewrite fetch_nth in Hf. destruct (check_end _ _ _ _ Hcur Hf) as [Hok [Hlk Hnd]].
     pose proof (sat_a0 _ _ _ _ Hs Hlk Hnd) as Hs0.
     eapply Inv_assemble; eauto.
-    + eapply GI_frame; eauto. apply same_gi_refl. apply (sr_gh _ _ (same_regs_to_script th)). intros; eapply same_regs_holds; eauto. apply same_regs_to_script.
+    + eapply GI_frame; eauto. apply same_gi_refl. apply (sr_gh _ _ (same_regs_to_script _ _ th)). intros; eapply same_regs_holds; eauto. apply same_regs_to_script.
     + eapply thread_ok_entry; eauto. apply same_regs_to_script. apply to_script_pc.
     + apply others_refl.
   - subst ts'. rewrite fetch_nth in Hf. destruct (check_succ _ _ _ _ _ _ Hcur Hf) as [Hreq Hsucc].
@@ -1463,18 +1463,18 @@ Proof.
         -- eapply thread_ok_entry; eauto. apply same_regs_pc.
         -- apply others_refl.
       * eapply Inv_assemble; eauto.
-        -- eapply GI_frame; eauto. apply same_gi_refl. apply (sr_gh _ _ (same_regs_to_script th)). intros; eapply same_regs_holds; eauto. apply same_regs_to_script.
+        -- eapply GI_frame; eauto. apply same_gi_refl. apply (sr_gh _ _ (same_regs_to_script _ _ th)). intros; eapply same_regs_holds; eauto. apply same_regs_to_script.
         -- eapply thread_ok_entry; eauto. apply same_regs_to_script. apply to_script_pc.
         -- apply others_refl.
       * eapply Inv_assemble; eauto.
-        -- eapply GI_frame; eauto. apply same_gi_refl. apply (sr_gh _ _ (same_regs_to_script th)). intros; eapply same_regs_holds; eauto. apply same_regs_to_script.
+        -- eapply GI_frame; eauto. apply same_gi_refl. apply (sr_gh _ _ (same_regs_to_script _ _ th)). intros; eapply same_regs_holds; eauto. apply same_regs_to_script.
         -- eapply thread_ok_entry; eauto. apply same_regs_to_script. apply to_script_pc.
         -- apply others_refl.
     + (* Done *)
       unfold req in Hreq. bool_hyps. destruct (a_locks a) eqn:Elk; try discriminate.
       pose proof (sat_a0 _ _ _ _ Hs Elk ltac:(assumption)) as Hs0. inv Hact.
       eapply Inv_assemble; eauto.
-      * eapply GI_frame; eauto. apply same_gi_refl. apply (sr_gh _ _ (same_regs_to_script th)). intros; eapply same_regs_holds; eauto. apply same_regs_to_script.
+      * eapply GI_frame; eauto. apply same_gi_refl. apply (sr_gh _ _ (same_regs_to_script _ _ th)). intros; eapply same_regs_holds; eauto. apply same_regs_to_script.
       * eapply thread_ok_entry; eauto. apply same_regs_to_script. apply to_script_pc.
       * apply others_refl.
 Qed.
